@@ -51,6 +51,11 @@ class ProgError(Exception):
         return 0 if 'falsy' in str(self.tag) else 1
 
 
+class ProgKeyError(ProgError, KeyError):
+    """A failure of a program that is also a KeyError (a missing entry somewhere in the step's own work): the program's failure,
+    whatever built-in exception class it derives from."""
+
+
 class UnprintableError(ProgError):
     """An exception that has no printable form: handling it must not depend on printing it."""
 
@@ -237,7 +242,7 @@ class ProgBase(plumpy.Process):
             # (text None: the bare ``Kill()`` command, without any message)
             return Kill() if ret[1] is None else Kill(MessageBuilder.kill(text=ret[1]))
         if kind == 'raise':
-            raise ProgError(ret[1])
+            raise (ProgKeyError if str(ret[1]).startswith('key:') else ProgError)(ret[1])
         if kind == 'misuse':
             # the step makes a control call that is not valid in the state it runs in: the library's own EventError ends the process
             self.resume(ret[1])
